@@ -21,9 +21,15 @@ ROOTS = ["jaq_core::compile::Filter", "jaq_core::compile::Lut", "jaq_core::compi
 
 def doctests(crate_dir, name):
     """Run the witness doc-tests (type checking only). Returns (ok, results, log)."""
-    shutil.copy(os.path.join(REPO, "Cargo.lock"), os.path.join(crate_dir, "Cargo.lock"))
+    # instantiate the witness crate against the repository under analysis (path dependencies)
+    work = os.path.join(CACHE, f"witness-{name}")
+    shutil.rmtree(work, ignore_errors=True)
+    shutil.copytree(crate_dir, work, ignore=shutil.ignore_patterns("target", "Cargo.lock"))
+    toml = open(os.path.join(work, "Cargo.toml")).read().replace('"/repo/', '"' + REPO.rstrip("/") + "/")
+    open(os.path.join(work, "Cargo.toml"), "w").write(toml)
+    shutil.copy(os.path.join(REPO, "Cargo.lock"), os.path.join(work, "Cargo.lock"))
     env = dict(os.environ, CARGO_TARGET_DIR=os.path.join(CACHE, "witness-target"), CARGO_NET_OFFLINE="true")
-    r = sh("cargo +nightly test --doc --offline", cwd=crate_dir, env=env)
+    r = sh("cargo +nightly test --doc --offline", cwd=work, env=env)
     out = r.stdout + r.stderr
     res = re.findall(r"^test (src/lib\.rs - (\S+) \(line \d+\)(?: - (compile fail|compile))?) \.\.\. (\w+)", out, re.M)
     return r.returncode == 0, res, out
@@ -51,7 +57,7 @@ def run(facts, tier):
             m = re.search(r"error(\[E\d+\])?: .*", out)
             w.violate(f"{name}/compile-pass", f"compile-pass witnesses of config {name} no longer type-check: {m.group(0) if m else 'build failed'}", detail=out[-3000:])
         for item, n in expect.items():
-            if got[item] != n:
+            if got[item] != n and (ok or res):
                 w.violate(f"{name}/missing/{item}", f"witness `{item}` did not run ({got[item]} of {n} doc-tests seen) -- fail closed", detail=out[-1500:])
     rules.append(w.finish())
 
